@@ -16,7 +16,7 @@ KERNELS = ["kamb_count", "schmidt_count", "exponential_kamb", "linear_inverse_ka
 
 
 def tasks(tier):
-    t = [("t_spherical", {})]
+    t = [("t_spherical", {}), ("t_to_cartesian", {})]
     t += [("t_poles", {"ref_axes": ra}) for ra in REF_AXES]
     t += [("t_lambert", {})]
     t += [("t_density", {"kernel": k, "axial": True}) for k in KERNELS]
@@ -83,6 +83,48 @@ def t_spherical(sess):
                 ce["same_as"] = reported
             sess.cex.append(ce)
     sample(sess, obligation="spherical round trip", paths=len(paths))
+
+
+def t_to_cartesian(sess):
+    """to_cartesian alone, with and without the radius argument (documented default: the unit sphere):
+    (x, y, z) = r (sin(theta) cos(phi), sin(theta) sin(phi), cos(theta)) -- longitude first, colatitude second."""
+    geo = pydrex_modules()["geometry"]
+    sess.encode(geo.to_cartesian)
+
+    def fn():
+        phi, theta, r = real("phi"), real("theta"), real("r")
+        trig = (R(phi).sin(), R(phi).cos(), R(theta).sin(), R(theta).cos())
+        return (phi, theta, r), geo.to_cartesian(phi, theta, r), geo.to_cartesian(phi, theta), trig
+
+    with np_installed(geo):
+        paths, _ = sym.explore(fn, catch=(Exception,))
+    p = only_path(sess, paths)
+    if p.exc is not None:
+        sess.prove(f"to_cartesian: raises {type(p.exc).__name__}: {str(p.exc)[:60]}", p.pc, z3.BoolVal(False))
+        return
+    (phi, theta, r), full, unit, (sp, cp, st, ct) = p.value
+    sess.satisfiable("to_cartesian: reach", p.pc)
+    for label, out, rad in (("given radius", full, r), ("default radius 1", unit, R(1))):
+        name = f"to_cartesian ({label}): (x, y, z) = r (sin(theta) cos(phi), sin(theta) sin(phi), cos(theta))"
+        q = sess.prove(name, p.pc, z3.And(eq(out[0][0], rad * st * cp), eq(out[1][0], rad * st * sp), eq(out[2][0], rad * ct)))
+        if not q.holds:
+            sess.cex.append({"name": name, "replay": "vf.props.C20:replay_to_cartesian", "case": {}, "cls": {"kind": "to_cartesian does not follow the longitude / colatitude convention"}})
+
+
+def replay_to_cartesian(case):
+    import numpy as np
+    from pydrex import geometry as geo
+
+    problems = []
+    for phi, theta, r in ((0.3, 1.1, 2.5), (4.0, 2.9, 0.5), (-1.2, 0.4, 1.0)):
+        want = np.array([np.sin(theta) * np.cos(phi), np.sin(theta) * np.sin(phi), np.cos(theta)])
+        got = np.array([v[0] for v in geo.to_cartesian(phi, theta, r)])
+        got1 = np.array([v[0] for v in geo.to_cartesian(phi, theta)])
+        if not np.allclose(got, r * want, atol=1e-12):
+            problems.append(f"to_cartesian({phi}, {theta}, {r}) = {got.tolist()}")
+        if not np.allclose(got1, want, atol=1e-12):
+            problems.append(f"to_cartesian({phi}, {theta}) = {got1.tolist()} (default radius)")
+    return {"reproduced": bool(problems), "detail": problems[:4] or "convention holds"}
 
 
 def replay_spherical(case):
